@@ -8,7 +8,7 @@ from .pipe import S, tla_limbs
 with open(os.path.join(core.SPEC, "dev_flags.json")) as _f:
     DEV = json.load(_f)
 
-TEXTS_Q = ["", "0", "1", "7", "10", "007", "1.5", "0.1", ".5", "5.", "1.2.3", "-1", "1e3", " 1", "abc", "65536", "+3"]
+TEXTS_Q = ["", "0", "1", "7", "10", "007", "1.5", "0.1", ".5", "5.", "1.2.3", "-1", "1e3", " 1", "abc", "65536", "+3", "4294967296", "0.008388608", "0.016777216", "8589934592"]
 TEXTS_T = TEXTS_Q + ["2", "3", "13", "100", "999", "00", "000", "+0", "-0", "0.0", "1.", "4294967295", "65537", "1_0", "0x10", "٣"]
 
 
